@@ -4,7 +4,7 @@ import glob
 import os
 import signal
 import time
-from core import Case, yml, logging_build
+from core import Case, yml, logging_build, SetupFailed
 
 
 def _t(inputs=None, outputs=None, name="t", body="", sleep=0.0, deps=None):
@@ -23,9 +23,11 @@ def _ran(pr, name="t"):
     return ("s " + name) in pr.log()
 
 
-def _run_ok(pr, *args):
-    r = pr.run(*args)
-    return r if (r.rc == 0 and not r.timed_out) else None
+def _run_ok(pr, *args, cwd=None):
+    r = pr.run(*args, cwd=cwd)
+    if r.rc != 0 or r.timed_out:
+        raise SetupFailed(r, "zinoma %s" % " ".join(args))
+    return r
 
 
 BASE_FILES = {"src/a.txt": "a1", "src/b.csv": "b1", "src/sub/c.txt": "c1"}
@@ -87,6 +89,35 @@ def _corrupt(kind):
         pr.commands.append("corrupt (%s) every file under .zinoma" % kind)
         pr.edit("src/a.txt", "a2")
     return op
+
+
+def corrupt_each_byte_case(pr):
+    """every single-byte corruption of the state file, each followed by a change of the declared output: whatever the
+    damaged record decodes to, a target whose resources changed is never skipped (and zinoma never fails)"""
+    pr.write("src/a.txt", "a1")
+    pr.write("zinoma.yml", yml({"t": _t([{"paths": ["src"]}, {"cmd_stdout": "echo constant"}], [{"paths": ["out.txt"]}], body="cat src/a.txt > out.txt")}))
+    _run_ok(pr, "t")
+    fs = [f for f in glob.glob(pr.path(".zinoma/*")) if os.path.isfile(f)]
+    if len(fs) != 1:
+        return None
+    good = open(fs[0], "rb").read()
+    pr.commands.append("for every byte offset of the state file (%d bytes): flip it to 0x00 / xor 0x01, delete out.txt, run" % len(good))
+    for off in range(len(good)):
+        for newb in (0, good[off] ^ 1):
+            if newb == good[off]:
+                continue
+            with open(fs[0], "wb") as h:
+                h.write(good[:off] + bytes([newb]) + good[off + 1:])
+            if os.path.exists(pr.path("out.txt")):
+                os.remove(pr.path("out.txt"))
+            pr.clear_log()
+            r = pr.run("t", timeout=20)
+            if r.rc != 0 or r.timed_out or not _ran(pr):
+                return {"property": ["C05", "C02"], "expected": "state file with byte %d set to 0x%02x (was 0x%02x) and out.txt deleted: the script runs again, exit 0" % (off, newb, good[off]), "observed": "exit %s timed_out %s, script ran: %s" % (r.rc, r.timed_out, _ran(pr)), "zinoma": r.brief()}
+            if not os.path.exists(fs[0]):
+                return None
+            # the successful run re-wrote a good record: keep corrupting from the known good one
+    return None
 
 
 def no_input_case(pr):
@@ -315,6 +346,31 @@ def per_target_state_case(pr):
     return None
 
 
+def prefix_named_targets_case(pr):
+    """targets whose names are prefixes of one another keep separate records"""
+    names = ["site", "site-assets", "site_assets", "sit", "build", "build-release"]
+    ts = {}
+    for n in names:
+        pr.write("in_%s/x.txt" % n, "1")
+        ts[n] = _t([{"paths": ["in_%s" % n]}], [{"paths": ["out_%s.txt" % n]}], name=n, body="echo 1 > out_%s.txt" % n)
+    pr.write("zinoma.yml", yml(ts))
+    _run_ok(pr, *names)
+    for victim in ("site", "build", "sit"):
+        pr.edit("in_%s/x.txt" % victim, "changed-%s" % victim)
+        pr.clear_log()
+        r = pr.run(*names)
+        started = sorted(l[2:] for l in pr.log() if l.startswith("s "))
+        if started != [victim]:
+            return {"property": "C18", "expected": "after a change to %s's input exactly %s runs; the others (%s) keep their own record and are skipped" % (victim, victim, names), "observed": "started %s" % started, "zinoma": r.brief()}
+        pr.clear_log()
+        r = pr.run("--clean", victim)
+        pr.clear_log()
+        r = pr.run(*names)
+        if pr.log():
+            return {"property": ["C18", "C12"], "expected": "`--clean %s` touches only %s's state: afterwards every target is skipped" % (victim, victim), "observed": "log %s" % pr.log(), "zinoma": r.brief()}
+    return None
+
+
 def imported_same_decision_case(pr):
     pr.write("lib/in/x.txt", "1")
     pr.write("lib/zinoma.yml", yml({"lt": _t([{"paths": ["in"]}], None, name="lt")}, name="lib"))
@@ -452,11 +508,11 @@ def sibling_import_case(pr):
     r = pr.run("all", cwd=pr.path("app"))
     if r.rc != 0 or "s gen" not in pr.log():
         return None
-    for (args, cwd, how) in ((["gen"], "lib", "from lib's own directory"), (["lib::gen"], "app", "qualified from app"), (["all"], "app", "as a dependency from app"), (["all"], "app2", "from app2, which imports lib through a symbolic link"), (["-p", "lib", "gen"], ".", "with -p lib"), (["gen"], "lib", "from lib again")):
+    for (args, cwd, how) in ((["gen"], "lib", "from lib's own directory"), (["lib::gen"], "app", "qualified from app"), (["all"], "app", "as a dependency from app"), (["all"], "app2", "from app2, which imports lib through a symbolic link"), (["-p", "lib", "gen"], ".", "with -p lib"), (["-p", "liblink", "gen"], ".", "with -p through a symbolic link to lib"), (["gen"], "liblink", "from inside the symbolic link to lib"), (["gen"], "lib", "from lib again")):
         pr.clear_log()
         r = pr.run(*args, cwd=pr.path(cwd))
         if r.rc != 0 or "s gen" in pr.log():
-            return {"property": "C18", "expected": "lib::gen, built once through app (imports ../lib), is skipped when reached %s" % how, "observed": "exit %s log %s" % (r.rc, pr.log()), "zinoma": r.brief()}
+            return {"property": ["C18", "C03"], "expected": "lib::gen, built once through app (imports ../lib), is skipped when reached %s" % how, "observed": "exit %s log %s" % (r.rc, pr.log()), "zinoma": r.brief()}
     return None
 
 
@@ -466,7 +522,11 @@ def nested_filters_case(pr):
     pr.write("pkg/api/dist/blob.bin", "b1")
     pr.write("docs/img/logo.png", "l1")
     pr.write("docs/readme.md", "r1")
-    t = _t([{"paths": ["pkg"], "extensions": ["json"]}, {"paths": ["pkg/api/dist"]}, {"paths": ["docs"]}, {"paths": ["docs/img"], "extensions": ["png"]}], None)
+    pr.write("same/data.bin", "s1")
+    pr.write("same/x.txt", "t1")
+    pr.write("same2/data.bin", "s1")
+    t = _t([{"paths": ["pkg"], "extensions": ["json"]}, {"paths": ["pkg/api/dist"]}, {"paths": ["docs"]}, {"paths": ["docs/img"], "extensions": ["png"]},
+            {"paths": ["same"], "extensions": ["txt"]}, {"paths": ["same"]}, {"paths": ["same2"]}, {"paths": ["same2"], "extensions": ["txt"]}], None)
     pr.write("zinoma.yml", yml({"t": t}))
     if not _run_ok(pr, "t"):
         return None
@@ -474,7 +534,7 @@ def nested_filters_case(pr):
     pr.run("t")
     if _ran(pr):
         return None
-    for f in ("pkg/api/dist/blob.bin", "docs/img/logo.png", "pkg/a.json", "docs/readme.md"):
+    for f in ("pkg/api/dist/blob.bin", "docs/img/logo.png", "pkg/a.json", "docs/readme.md", "same/data.bin", "same2/data.bin"):
         pr.edit(f, "changed-" + f)
         pr.clear_log()
         r = pr.run("t")
@@ -600,6 +660,7 @@ def cases(seed, tier="quick"):
         C("ext-empty-entry", skip_then("edit src/a.txt (extensions: ['', csv])", lambda p: p.edit("src/a.txt", "a2-longer"), False, "C15", ext=["", "csv"], why=" (the empty entry is ignored, the filter is .csv)"), "empty entry ignored"),
         C("ext-only-empty", skip_then("edit src/a.txt (extensions: [''])", lambda p: p.edit("src/a.txt", "a2-longer"), True, ["C15", "C02"], ext=[""], why=" (no filter)"), "only empty entries = no filter"),
         C("workdir-inside", skip_then("edit src/.zinoma/x", lambda p: p.edit("src/.zinoma/x", "2-longer"), False, "C15", extra={"src/.zinoma/x": "1"}, why=" (inside a directory named .zinoma)"), ".zinoma directory below the listed path is pruned"),
+        C("corrupt-each-byte", corrupt_each_byte_case, "every single-byte corruption of the record + a changed output"),
         C("no-input", no_input_case, "no input: always executed"),
         C("missing-path", missing_path_case, "missing path contributes nothing"),
         C("symlink-file", symlink_case, "link to a regular file inside the listed directory"),
@@ -607,6 +668,7 @@ def cases(seed, tier="quick"):
         C("many-files", many_files_case, "large record is read back"),
         C("fail-then-revert", fail_then_revert_case, "failed build not remembered"),
         C("per-target-state", per_target_state_case, "state per target"),
+        C("prefix-named-targets", prefix_named_targets_case, "targets whose names are prefixes of one another"),
         C("imported-same-decision", imported_same_decision_case, "imported target decided identically however reached"),
         C("two-producers-same-cmd", two_producers_same_cmd_case, "same command text in two producers"),
         C("nested-filters", nested_filters_case, "nested paths with different extension filters"),
